@@ -216,12 +216,20 @@ inline int engine_main(int argc, char** argv, Engine& eng) {
   double t0 = now_s();
   int viol = 0;
   uint64_t done = 0;
+  double slowest_s = 0;
+  uint64_t slowest_run = 0;
   for (uint64_t k = 0; k < count; k++) {
     if ((k & 7) == 0 && now_s() - t0 > seconds) break;
     uint64_t run = first + k * stride;
     Plan p = eng.generate(seed, run, opts);
     printf("START %llu\n", (unsigned long long)run);
+    double tr0 = now_s();
     Result r = eng.execute(p, stats);
+    double tr = now_s() - tr0;  // wall time is only ever reported, never fed back into a run
+    if (tr > slowest_s) {
+      slowest_s = tr;
+      slowest_run = run;
+    }
     done++;
     for (auto& n : r.notes) printf("NOTE %s\n", n.c_str());
     if (r.violation) {
@@ -256,6 +264,7 @@ inline int engine_main(int argc, char** argv, Engine& eng) {
   }
   stats.add("runs", done);
   stats.print();
+  if (slowest_s > 0.5) printf("NOTE slowest run of this worker: run %llu took %.1f s\n", (unsigned long long)slowest_run, slowest_s);
   printf("DONE %llu %.3f\n", (unsigned long long)done, now_s() - t0);
   return 0;
 }
